@@ -3,7 +3,7 @@
    Proofs/EvalLog2.v (evaluator) and Proofs/Envelope*.v (which envelopes are rejected).
    For ALL worlds (incl. the decrypter, fault plans, modes), fuels, definitions, states. *)
 From Verif Require Import Base.Bytes Model.Chain Model.GoText Model.Envelope Model.Eval.
-From Verif Require Import Proofs.EnvelopeBase64 Proofs.EnvelopeProofs Proofs.EnvelopeCRC.
+From Verif Require Import Proofs.EnvelopeBase64 Proofs.EnvelopeProofs Proofs.EnvelopeCRC Proofs.EnvelopeText.
 From Verif Require Import Proofs.EvalLogKit Proofs.EvalLogInd Proofs.EvalLog Proofs.EvalTotalSyntax.
 From Verif Require Import Proofs.EvalLog2Ind Proofs.EvalLog2.
 From Verif Require Properties.C11.
@@ -106,6 +106,18 @@ Theorem C11_wrong_checksum_never_decrypted : forall W f E xbase id s (bin : stri
   crc32 (stake (String.length bin - 4) bin) <> be32_read (sdrop (String.length bin - 4) bin) ->
   rejected_effect W f E (b64_encode bin) xbase id s.
 Proof. exact (fun W f E xbase id s bin H => rejected_cipher_effect W f E _ xbase id s (reject_wrong_checksum std bin H)). Qed.
+
+(* the TEXT level: one character of the stored text replaced by a character that is neither in the base64 alphabet nor
+   '=' (one flipped bit that leaves the alphabet; CR / LF included) - envelopes of every length *)
+Theorem C11_text_char_outside_alphabet_never_decrypted : forall W f E xbase id s (ct : string) (k : nat) (c' : ascii),
+  (k < String.length (encode_ct std ct))%nat -> b64_or_pad c' = false ->
+  rejected_effect W f E (text_set k c' (encode_ct std ct)) xbase id s.
+Proof.
+  exact (fun W f E xbase id s ct k c' Hk Hc =>
+           undecodable_cipher_effect W f E _ xbase id s
+             (@eq_ind_r dec_result DErrBase64 (fun d => match d with DOk _ => false | _ => true end = true)
+                          (eq_refl true) _ (C11.C11_text_char_outside_alphabet ct k c' Hk Hc))).
+Qed.
 
 (* not base64 at all, or any other rejection *)
 Theorem C11_undecodable_never_decrypted : forall W f E xbase id s (repr : string),
